@@ -510,6 +510,14 @@ def runMonitor (prop : String) (ops obs : Array String) : IO Unit := do
           ms := ms'
           for f in fl do
             out.putStrLn (failLine prop f.clause f.cls (i+1)); fails := fails + 1
+          -- what makes a schedule a schedule (C08, C13): every stored context has a positive timeout and, when
+          -- repeated, a frequency that is not below it — `CtxOk` of Proofs/ServiceNoStale, an invariant of every
+          -- reachable model state (`CQ` / `NS`, preserved by every step: `NS_stepCore`); a context for which the next batch would be queued in the past
+          -- is never processed again
+          if prop = "C08" ∨ prop = "C13" then
+            if !(post.ctxs.all fun (e : CtxId × Ctx) =>
+                  decide (0 < e.2.timeout) && (!e.2.repeated || decide (e.2.timeout ≤ (e.2.freq : Int)))) then
+              out.putStrLn (failLine prop "ctx-schedule-illformed" "" (i+1)); fails := fails + 1
           pre := post; preTok := o
       | _, _ => out.putStrLn (failLine prop "parse" "" (i+1)); fails := fails + 1
   out.putStrLn s!"mon {prop} done steps={steps} fails={fails}"
